@@ -35,6 +35,18 @@ CHECKS = {
             "(a) zero-annotation no-panic sweep (index, slice bounds, nil map, division, type assertion, nil dereference, explicit panic, library preconditions such as strings.Repeat count >= 0) of the mint API functions under contract, with the representation invariant as only precondition; (b) failure atomicity: an error without storage/Lightning-query fault leaves spent, pending, signatures and quote rows unchanged (Swap, MintTokens, MeltTokens), i.e. validation provably precedes mutation.",
             "Panics inside third-party libraries are assumed away (A-LIB1). HTTP handlers are covered by C20 when claimed. Functions without contract are not swept (listed in evidence).",
             "DESIGN.md §8 C06"),
+    "C07": (True,
+            "A process can only die between two durable effects, and the durable effects of an operation are exactly its store / Lightning calls: boundary invariants are asserted in the state right before every such call and at every return (the state a restart would find, for all inputs) of Swap, MintTokens, MeltTokens and RotateKeyset, and the same points cover a storage error injected at the call (the error return is a boundary too). Safety boundaries (newly stored signatures imply spent inputs / ISSUED quote; payment only with locked inputs) are proved at every point; reordering effects (signatures before spending, ISSUED after storing) fails a boundary. The atomicity boundaries that fail because operations span several transactions are genuine defects, confirmed by crash-injection replays and listed as known findings.",
+            "Assumed: SQLite transaction atomicity and durability, restart = LoadMint on the same store (LoadMint itself is only swept partially). Known findings (open): multi-transaction windows of Swap, MintTokens, MeltTokens (lock vs. PENDING, internal settlement), RotateKeyset.",
+            "DESIGN.md §8 C07"),
+    "C09": (True,
+            "GenerateKeyset proved to produce, for all (master, index): the 60 keys at amounts 2^0..2^59 as the children H+0..H+59 of m/0'/0'/index' (private scalar and public point), with the given fee/active flag - the keyset is a function of seed and index; keyset id shape proved (\"00\" + 14 hex chars of a 32-byte digest), sorted concatenation bounded (bounded/keysetid); RotateKeyset: representation invariant (one active keyset, filed under its id) preserved, old keysets keep keys, fee and id, the stored row carries exactly (new id, old index + 1, requested fee, active), the old row is only deactivated; signBlindedMessages signs only under the active keyset id and refuses others; verifyProofs takes the key from the proof's own keyset; TransactionFees charges each proof its own keyset's fee (spec sum).",
+            "Assumed: BIP32 derivation (hdkeychain) as an uninterpreted pure function, A-FLOAT (math.Pow(2, i) exact for i < 64). Bounded: sorted concatenation in DeriveKeysetId. Known finding (open): RotateKeyset crash window (C07). LoadMint's reconstruction loop is not under a functional contract.",
+            "DESIGN.md §8 C09"),
+    "C11": (True,
+            "HashToCurve proved equal to the NUT-00 spec function h2c (domain separator, sha256, little-endian uint32 counter from 0, 02-prefix, first counter that parses; error only after all 2^16 counters failed) by a loop invariant over the counter search; NUT-13 DeriveKeysetPath / DeriveSecret / DeriveBlindingFactor proved equal to the paths m/129372'/0'/(int(id) mod (2^31-1))'/counter'/{0,1} over uninterpreted BIP32 derivation and big-endian decoding, incl. the machine arithmetic (uint64 modulus, uint32 truncation); keyset id: prefix and truncation proved, sorted concatenation bounded (bounded/keysetid); mint keyset path m/0'/0'/index'.",
+            "Assumed: sha256, secp256k1 point parsing, BIP32 (hdkeychain), hex as uninterpreted functions with the stated axioms (A-LIB2); NUT-13 functions under the precondition that keyset ids are 8 bytes and counters < 2^31. Bounded: sorted concatenation in DeriveKeysetId.",
+            "DESIGN.md §8 C11"),
     "C12": (True,
             "VerifyP2PKLockedProof: what it hands to HasValidSignatures is pinned at the call site for all inputs (message = sha256(secret), threshold = n_sigs or 1, keys = lock key + co-signers only when a threshold is set; refund branch only after the locktime with the refund keys and threshold 1), acceptance without signatures only after the locktime without refund keys, witness non-empty and duplicate-free; ProofsSigAll <=> some input carries SIG_ALL wherever it sits; Swap: any SIG_ALL input => verifyBlindedMessages ran: all inputs SIG_ALL with equal key lists and thresholds, every output signed over sha256(decoded B_); MeltTokens refuses SIG_ALL inputs; ParseP2PKTags total (no panic) on all tag lists; the library's signing helpers sign exactly the message the verifier hashes. HasValidSignatures: each counted signature consumes a key (cardinality invariant proved); its full matching semantics is a BOUNDED stand-in (bounded/hvs).",
             "Assumed: determinism of JSON decoding of secrets/witnesses and of ParseP2PKTags/PublicKeys as functions of their inputs (named spec functions), schnorr library contracts, wall clock arbitrary. Bounded (not proved): matching semantics of HasValidSignatures within the bound stated in evidence. Schnorr unforgeability not decided.",
